@@ -13,13 +13,20 @@ from . import terms as T
 
 
 class Graph(object):
-    def __init__(self):
-        self.kind = [0, 0]      # node 0 reserved (constants); kind: 1 input, 2 and, 3 xor
+    def __init__(self, affine=False):
+        self.kind = [0, 0]      # node 0 reserved (constants); kind: 1 input, 2 and, 3 xor, 4 affine (XOR of a set of inputs)
         self.a = [0, 0]
         self.b = [0, 0]
         self.hash = {}
         self.names = {}
         self.ninputs = 0
+        # affine mode: every literal that is a GF(2)-affine function of the inputs is kept in canonical form
+        # (bit mask over input indices, constant = literal polarity), so two affine-equal functions are the same
+        # literal however they were computed; XOR of non-affine operands falls back to hashed XOR nodes
+        self.affine = affine
+        self.mask = {}          # node -> int bit mask over input indices (inputs and kind-4 nodes)
+        self.inputs = []        # input index -> node
+        self.aff_hash = {}      # mask -> node
 
     def new_input(self, name):
         n = len(self.kind)
@@ -27,8 +34,48 @@ class Graph(object):
         self.a.append(0)
         self.b.append(0)
         self.names[n] = name
+        if self.affine:
+            m = 1 << self.ninputs
+            self.mask[n] = m
+            self.aff_hash[m] = n
+        self.inputs.append(n)
         self.ninputs += 1
         return 2 * n
+
+    def from_mask(self, m):
+        """literal of the canonical node for the XOR of the inputs in mask m"""
+        if m == 0:
+            return 0
+        n = self.aff_hash.get(m)
+        if n is None:
+            n = len(self.kind)
+            self.kind.append(4)
+            self.a.append(0)
+            self.b.append(0)
+            self.mask[n] = m
+            self.aff_hash[m] = n
+        return 2 * n
+
+    def xor_many(self, lits):
+        """XOR of many literals; in affine mode affine operands are folded on masks first"""
+        if not self.affine:
+            r = 0
+            for l in lits:
+                r = self.XOR(r, l)
+            return r
+        m, neg, rest = 0, 0, 0
+        for l in lits:
+            if l <= 1:
+                neg ^= l
+                continue
+            fm = self.mask.get(l >> 1)
+            if fm is None:
+                rest = self.XOR(rest, l)
+            else:
+                m ^= fm
+                neg ^= l & 1
+        r = self.from_mask(m) ^ neg
+        return self.XOR(r, rest) if rest else r
 
     def AND(self, x, y):
         if x > y:
@@ -62,6 +109,12 @@ class Graph(object):
             return y ^ neg
         if x == y:
             return neg
+        if self.affine:
+            mx = self.mask.get(x >> 1)
+            if mx is not None:
+                my = self.mask.get(y >> 1)
+                if my is not None:
+                    return self.from_mask(mx ^ my) ^ neg
         key = (3, x, y)
         r = self.hash.get(key)
         if r is None:
@@ -94,9 +147,9 @@ G = Graph()
 T.AIG = __import__('sys').modules[__name__]
 
 
-def reset():
+def reset(affine=False):
     global G
-    G = Graph()
+    G = Graph(affine)
     return G
 
 
@@ -264,14 +317,31 @@ def fsh(left, a, b, c, w):
 
 
 # --------------------------------------------------------------------------
-def simulate(g, nwords, rnd):
-    """random bit-parallel simulation; returns list of ints (one per node), 64*nwords patterns"""
+def simulate(g, nwords, rnd, patterns=()):
+    """random bit-parallel simulation; returns list of ints (one per node), 64*nwords patterns;
+    patterns: input-name -> bool dicts placed in the low bits"""
     mask = (1 << (64 * nwords)) - 1
     val = [0] * g.size()
+    np_ = len(patterns)
     for n in range(2, g.size()):
         k = g.kind[n]
         if k == 1:
-            val[n] = rnd.getrandbits(64 * nwords)
+            v = rnd.getrandbits(64 * nwords)
+            if np_:
+                nm = g.names.get(n)
+                v &= ~((1 << np_) - 1)
+                for j, pat in enumerate(patterns):
+                    if pat.get(nm, False):
+                        v |= 1 << j
+            val[n] = v
+        elif k == 4:
+            v, m, i = 0, g.mask[n], 0
+            while m:
+                if m & 1:
+                    v ^= val[g.inputs[i]]
+                m >>= 1
+                i += 1
+            val[n] = v
         else:
             x, y = g.a[n], g.b[n]
             vx = val[x >> 1] ^ (mask if x & 1 else 0)
@@ -292,6 +362,13 @@ def cone(g, roots):
             for l in (g.a[n], g.b[n]):
                 if l > 1:
                     stack.append(l >> 1)
+        elif g.kind[n] == 4:
+            m, i = g.mask[n], 0
+            while m:
+                if m & 1:
+                    seen.add(g.inputs[i])
+                m >>= 1
+                i += 1
     return seen
 
 
@@ -305,8 +382,30 @@ def to_cnf(g, lits_true, any_of=()):
         v = vm[l >> 1]
         return -v if l & 1 else v
     cl = []
+    nextvar = [len(nodes)]
+
+    def xor3(z, x, y):
+        cl.append((-z, x, y)); cl.append((-z, -x, -y)); cl.append((z, -x, y)); cl.append((z, x, -y))
     for n in nodes:
         k = g.kind[n]
+        if k == 4:
+            # chain of XORs over the inputs of the mask, fresh auxiliary variables
+            ins, m, i = [], g.mask[n], 0
+            while m:
+                if m & 1:
+                    ins.append(vm[g.inputs[i]])
+                m >>= 1
+                i += 1
+            acc = ins[0]
+            for j, v in enumerate(ins[1:]):
+                if j == len(ins) - 2:
+                    z = vm[n]
+                else:
+                    nextvar[0] += 1
+                    z = nextvar[0]
+                xor3(z, acc, v)
+                acc = z
+            continue
         if k == 2:
             x, y, z = L(g.a[n]), L(g.b[n]), vm[n]
             cl.append((-z, x)); cl.append((-z, y)); cl.append((z, -x, -y))
@@ -321,4 +420,4 @@ def to_cnf(g, lits_true, any_of=()):
     if any_of:
         if not any(l == 1 for l in any_of):
             cl.append(tuple(L(l) for l in any_of if l > 1))
-    return len(nodes), cl, vm
+    return nextvar[0], cl, vm
